@@ -164,7 +164,7 @@ def run_case(rec, ptype, cls, data, pattern):
 
 def plan(tier, seed):
     n = 16 if tier == 'thorough' else 8
-    per = 180000 if tier == 'thorough' else 5000
+    per = 180000 if tier == 'thorough' else 15000
     return [{'seed': seed, 'shard': i, 'n': per} for i in range(n)]
 
 
